@@ -55,7 +55,7 @@ def build_daemon(ctx, name="munged", san="address", vclock=True, extra_defs=(), 
 
 
 class Daemon:
-    def __init__(self, ctx, exe, tag="d", key=None, nthreads=2, max_ttl=None, extra=(), env=None, clock=None):
+    def __init__(self, ctx, exe, tag="d", key=None, nthreads=2, max_ttl=None, extra=(), env=None, clock=None, nss_db=None):
         self.ctx = ctx
         self.exe = exe
         self.dir = os.path.join(ctx.tmp, "%s-%d" % (tag, len(os.listdir(ctx.tmp))))
@@ -77,16 +77,37 @@ class Daemon:
         self.args = [exe, "-F", "-S", self.sock, "--key-file=" + self.keyfile,
                      "--pid-file=" + os.path.join(self.dir, "pid"), "--seed-file=" + os.path.join(self.dir, "seed"),
                      "--log-file=" + self.logfile,
-                     "--num-threads=%d" % nthreads, "--group-update-time=-1"] + list(extra)
+                     "--num-threads=%d" % nthreads] + \
+                    (["--group-update-time=0", "--group-check-mtime=0"] if nss_db is not None else ["--group-update-time=-1"]) \
+                    + list(extra)
+        self.nss_db = None
+        if nss_db is not None:
+            self.nss_db = os.path.join(self.dir, "nssdb")
+            self.write_nss(nss_db)
         if max_ttl is not None:
             self.args.append("--max-ttl=%d" % max_ttl)
         self.env = dict(os.environ)
         self.env.update({"ASAN_OPTIONS": "detect_leaks=1:log_path=%s:abort_on_error=0:exitcode=99:allocator_may_return_null=1" % self.asan_log,
                          "TSAN_OPTIONS": "log_path=%s:exitcode=98" % self.asan_log,
                          "VERIF_CLOCK_FILE": self.clockfile})
+        if self.nss_db:
+            self.env["VERIF_NSS_DB"] = self.nss_db
         if env:
             self.env.update(env)
         self.p = None
+
+    def write_nss(self, db):
+        """db = {"groups": [(gid, [names])], "users": [(name, uid)]}"""
+        with open(self.nss_db + ".tmp", "w") as f:
+            for gid, names in db.get("groups", []):
+                f.write("g %d %s\n" % (gid, ",".join(names) if names else "-"))
+            for name, uid in db.get("users", []):
+                f.write("u %s %d\n" % (name, uid))
+        os.replace(self.nss_db + ".tmp", self.nss_db)
+
+    def sighup(self, settle=0.3):
+        self.p.send_signal(signal.SIGHUP)
+        time.sleep(settle)
 
     def set_clock(self, t):
         """t = 0 means: real time"""
